@@ -413,3 +413,23 @@ Proof.
   intros H D K F. apply register_cases in H as [[_ C]|(_ & -> & _)]; [congruence|].
   eapply find_by_name_stable; eauto. now apply lookup1_registered_same.
 Qed.
+
+(* a NAME wins over an ALIAS whichever side (installed table or run-time registry) holds either:
+   when the name group resolves the name, find_plugin answers that class whatever the alias
+   groups contain ... *)
+Lemma name_shadows_alias r inst df g c n k d fl :
+  dget df g = Some d -> lookup1 r inst g (c :: n) = Some k ->
+  find_plugin r inst df g (NStr (c :: n)) fl = Ok k.
+Proof. intros D L. unfold find_plugin, load_entry_point. now rewrite D, L. Qed.
+
+(* ... and registering an alias of that spelling -- forced or not, any class -- changes nothing *)
+Lemma alias_registration_cannot_replace_name inst df r g c n k d fl k' force :
+  dget df g = Some d -> lookup1 r inst g (c :: n) = Some k ->
+  find_plugin (snd (register_plugin r inst df (g ++ s_aliases) (c :: n) k' force)) inst df g (NStr (c :: n)) fl = Ok k.
+Proof.
+  intros D L.
+  assert (F : Forall (fun x => ~ forces g (c :: n) x) [CReg (g ++ s_aliases) (c :: n) k' force]).
+  { constructor; [|constructor]. cbn. destruct force; [|tauto]. intros [E _]. revert E. apply app_neq_self. discriminate. }
+  destruct (find_by_name_stable inst df _ r g c n k d fl D L F) as [_ H].
+  cbn [run step] in H. destruct (register_plugin r inst df (g ++ s_aliases) (c :: n) k' force) as [o r']. exact H.
+Qed.
